@@ -2,6 +2,7 @@ package props
 
 import (
 	"fmt"
+	"go/types"
 	"os"
 	"strings"
 	"time"
@@ -419,3 +420,5 @@ func broadMembers(tier string, cfg gen.Config) []member {
 	out = append(out, anyOfMembers(tier, cfg)...)
 	return out
 }
+
+func typesStringSlice() types.Type { return types.NewSlice(types.Typ[types.String]) }
